@@ -37,7 +37,18 @@ func canTouch(prev, next string) bool {
 	if prev == "" || next == "" {
 		return true
 	}
-	return punct(prev) || punct(next)
+	if punct(prev) || punct(next) {
+		return true
+	}
+	// an operator character followed by a variable, a number, a name or a quote cannot fuse into another token:
+	// "-1", "!$a", "=$b", "*foo", "&$x" ('.' is not in the set: ". 5" and ".5" differ; "<" is not: "<?")
+	lc, fc := prev[len(prev)-1], next[0]
+	if strings.IndexByte("-+*/%!~@=>&|^", lc) >= 0 && (fc == '$' || fc == '\'' || fc == '"' || fc >= '0' && fc <= '9' || fc >= 'a' && fc <= 'z' || fc >= 'A' && fc <= 'Z' || fc == '_') {
+		// the pair must not be two halves of one token: "=>" "->" end in '>' and are whole tokens themselves, fine;
+		// but a cast-like or tag-like start is excluded by the character classes above
+		return true
+	}
+	return false
 }
 
 // Placeholders inside a token text, expanded by the renderer: a token such as a cast, 'yield from' or a
